@@ -220,6 +220,8 @@ def iaddLoop : Graph → Nat → Term → List Term → Graph × Nat × Term
     if hasSP g e FIRST then iaddLoop (add (add g (e, REST, fr)) (fr, FIRST, x)) (fr + 1) fr xs
     else iaddLoop (add g (e, FIRST, x)) fr e xs
 
+/-- `__iadd__`: the operand is read into a list first (`other = list(other)`, fix C19-F7), so it is a plain
+    list here whatever iterable it was — also when it was the collection itself (`c += c`). -/
 def iadd (s : St) (h : Term) (xs : List Term) : Except Err St :=
   match endOf s.g h with
   | .error e => .error e
